@@ -154,6 +154,16 @@ func (b *Broker) Consume(c *Conn, respond bool) bool {
 				codes[i] = p.Codes[i]
 			}
 		}
+		if b.Mute["SUBACK-hold"] && len(p.Filt) > 0 && strings.HasPrefix(p.Filt[0], "hold/") {
+			break // a slow broker: no answer to this one
+		}
+		if b.Mute["SUBACK-badcode"] && respond && len(p.Filt) > 0 && strings.HasPrefix(p.Filt[0], "fail") {
+			// a broker that answers with a return code MQTT does not define: the client has to reset (violation)
+			raw := codec.Encode(&codec.Packet{T: "SUBACK", ID: p.ID, Codes: append([]int{3}, codes[1:]...)})
+			b.w.Rec.Emit(Ev{"e": "bsraw", "c": c.id, "n": len(raw), "note": "SUBACK with return code 3", "violation": c.Aligned()})
+			c.Inject(raw)
+			break
+		}
 		if b.Mute["SUBACK-miscount"] && respond {
 			// a broker that answers with one return code too many (MQTT-3.8.4-5 violated): hostile input
 			raw := codec.Encode(&codec.Packet{T: "SUBACK", ID: p.ID, Codes: append(codes, 0)})
